@@ -34,6 +34,16 @@ fn gen_text(rng: &mut Rng, len_class: u64) -> String {
     while s.len() > n {
         s.pop();
     }
+    // "text decoded as UTF-8" means all of it: one text in six starts with U+FEFF (the byte
+    // order mark some taggers write - a character like any other here) or ends with a NUL or a
+    // space (what a C-string or trimming reader would drop)
+    if n >= 1 {
+        match rng.below(12) {
+            0 => s.insert(0, '\u{feff}'),
+            1 => s.push('\0'),
+            _ => {}
+        }
+    }
     s
 }
 
@@ -92,7 +102,8 @@ pub fn gen_tags_with(rng: &mut Rng, present: u32, handler_mdir: bool, place: u8)
             6 => {
                 // text that is no decimal number encodes no year: the accessor reports absence
                 // (empty payloads are part of the quantified space)
-                let t: &[u8] = *rng.pick(&[&b""[..], b"", b"abc", b"20x8", b"2008-05-01", b" ", b"-1", b"99999999999"]);
+                let t: &[u8] = *rng.pick(&[&b""[..], b"", b"abc", b"20x8", b"2008-05-01", b" ", b"-1", b"99999999999",
+                    "\u{4ee4}\u{548c}2\u{5e74}5\u{6708}".as_bytes(), "20\u{e9}8".as_bytes(), "\u{ff12}\u{ff10}\u{ff10}\u{ff18}".as_bytes(), "2\u{e9}08-05".as_bytes(), b"\xff\xfe20", "\u{feff}2008".as_bytes()]);
                 items.push((*b"\xa9day", 1, t.to_vec()));
                 want.year = None;
             }
@@ -181,6 +192,32 @@ fn eval(id: &str, m: &Movie, want: &WantTags, shape: &str, rep: &mut Report, arg
             }
         }
         Err((r, d)) => fails.push((if r == "reader_panic" { "reader_panic" } else { "open_error" }, d)),
+    }
+    // the second way to open a movie: an initialisation segment with this very user data, and a
+    // media segment opened against it - the segment's reader answers for the same movie
+    if fails.is_empty() && hash_str(id) % 8 == 5 {
+        let mut frng = Rng::new(hash_str(id));
+        let mut fm = crate::model::gen_frag_movie(&mut frng, 2, 2, 2, true);
+        fm.movie.tags = m.tags.clone();
+        let b = crate::model::build_fragmented(&fm);
+        let init = Rc::new(b.init.clone());
+        let seg = Rc::new(b.segment.clone());
+        let r = panicmon::catch(|| -> Result<WantTags, String> {
+            let base = mp4::Mp4Reader::read_header(crate::streams::MonReader::plain(init.clone()), init.len() as u64).map_err(|e| format!("init: {}", e))?;
+            let s = base.read_fragment_header(crate::streams::MonReader::plain(seg.clone()), seg.len() as u64).map_err(|e| format!("segment: {}", e))?;
+            let md = s.metadata();
+            Ok(WantTags { title: md.title().map(|c| c.to_string()), year: md.year(), poster: md.poster().map(|p| p.to_vec()), summary: md.summary().map(|c| c.to_string()) })
+        });
+        match r {
+            Ok(Ok(got)) => {
+                if got.title != want.title || got.year != want.year || got.poster != want.poster || got.summary != want.summary {
+                    fails.push(("metadata_through_a_media_segment_reader", json!({"title_equal": got.title == want.title, "year": [got.year, want.year], "poster_equal": got.poster == want.poster, "summary_equal": got.summary == want.summary})));
+                }
+            }
+            Ok(Err(e)) => fails.push(("metadata_through_a_media_segment_reader", json!({"open": e}))),
+            Err(p) => fails.push(("reader_panic", json!({"site": p.site(), "msg": p.msg, "mode": "segment"}))),
+        }
+        rep.add("cases_also_read_through_a_media_segment_reader", 1);
     }
     rep.cover_nt(hash_str(shape));
     if rep.want_sample() && args.shard == 0 {
